@@ -43,6 +43,7 @@ def run(ctx):
     can_delete(ctx)
     reap(ctx)
     lagging(ctx)
+    no_incoming_entry_dropped(ctx)
 
 
 def state_table(ctx):
@@ -324,3 +325,90 @@ def lagging(ctx):
               f"RangeDiffStatus::Refresh is answered with {mapping.get('Refresh')}, expected RefreshRequired: the lagging consumer is not told to refresh", file=sp["file"], line=lines.get("Refresh"))
     ctx.check(mapping.get("Critical") in ("UnwillingToSupply", "RefreshRequired"), R, sp["fn"], "map:Critical", f"Critical → {mapping.get('Critical')}",
               f"RangeDiffStatus::Critical (lagging and advanced) is answered with {mapping.get('Critical')}: changes would be supplied to a lagging consumer", file=sp["file"], line=lines.get("Critical"))
+
+
+# ---------------------------------------------------------------------------------------------------------------------
+# every incoming entry reaches the conflict / merge tables (added after seeded change C09: a `retain` that dropped
+# "old" tombstones before the merge while the consumer's RUV was still advanced)
+
+LOSSY = ("filter", "filter_map", "skip", "take", "skip_while", "take_while", "step_by", "nth", "find", "find_map",
+         "last", "next", "rev_take", "dedup", "dedup_by", "dedup_by_key", "flat_map", "flatten", "map_while", "scan")
+SHRINK = ("retain", "retain_mut", "drain", "truncate", "dedup", "dedup_by", "dedup_by_key", "pop", "remove", "swap_remove",
+          "clear", "split_off", "extract_if")
+
+
+def _chain(e):
+    """(root local id | None, [method names from the root outwards]) of a method-call chain expression"""
+    names = []
+    e = unwrap(e)
+    while isinstance(e, dict):
+        k = e.get("e")
+        if k == "mcall":
+            names.append(e.get("name"))
+            e = unwrap(e["recv"])
+        elif k == "match" and ("TryDesugar" in e.get("src", "")):
+            e = unwrap(pc.try_inner(e))
+        elif k == "path" and "local" in e["res"]:
+            return e["res"]["local"], list(reversed(names))
+        else:
+            return None, list(reversed(names))
+    return None, list(reversed(names))
+
+
+def no_incoming_entry_dropped(ctx):
+    R = "K6-no-incoming-entry-dropped"
+    fn = ctx.fn1(LIB, r"^kanidmd_lib::repl::consumer::<impl server::QueryServerWriteTransaction<'_>>::consumer_incremental_apply_entries$")
+    body = fn["body"]
+    # the rehydrated vector
+    reh = None
+    for n in walk(body, into_closures=False):
+        if n.get("s") == "let" and "init" in n and n["pat"].get("p") == "bind":
+            if any(ends(d, "rehydrate") for x in walk(n["init"]) for d in ([def_of(x)] + list(callee_any(x))) if d):
+                reh = n
+                break
+    if not ctx.check(reh is not None, R, fn["fn"], "rehydrated-vector-found", "let <entries> = ..map(rehydrate)..",
+                     "the vector of rehydrated incoming entries was not found (shape not understood)", file=fn["file"], line=fn["line"]):
+        return
+    L = reh["pat"]["local"]
+    root, names = _chain(reh["init"])
+    param0 = None
+    for p in fn["params"]:
+        if "Vec<" in p["ty"] and p["pat"].get("p") == "bind":
+            param0 = p["pat"]["local"]
+    lossy = [m for m in names if m in LOSSY]
+    ctx.check(root is not None and root == param0 and not lossy, R, fn["fn"], "rehydrates-every-supplied-entry",
+              "every supplied entry is rehydrated",
+              f"the rehydrated vector is not built from the whole supplied entry list (root={'param' if root == param0 else root}, lossy adapters {lossy}): "
+              "a supplied change would be acknowledged (the RUV is advanced) but never applied", file=fn["file"], line=reh["init"].get("line"))
+    # nothing removes elements from it
+    bad = []
+    for c in all_calls(body):
+        if c.get("e") == "mcall" and c.get("name") in SHRINK:
+            r, _ = _chain(c["recv"])
+            if r == L:
+                bad.append((c.get("name"), c.get("line")))
+    ctx.check(not bad, R, fn["fn"], "incoming-vector-not-shrunk", "no element is removed from the incoming entries",
+              f"incoming replication entries are removed before they are applied ({bad}): the consumer then acknowledges changes — e.g. a tombstone — "
+              "that it never merged, and no supplier will send them again; a deleted entry stays live on this replica",
+              file=fn["file"], line=bad[0][1] if bad else None)
+    # the partition and the merge consume it whole
+    part = [c for c in all_calls(body, into_closures=False) if c.get("e") == "mcall" and c.get("name") == "partition"]
+    okp = False
+    for c in part:
+        r, names = _chain(c["recv"])
+        if r == L:
+            okp = not [m for m in names if m in LOSSY]
+            ctx.check(okp, R, fn["fn"], "partition-covers-every-entry", "conflict/proceed partition over every incoming entry",
+                      f"the conflict/proceed partition skips incoming entries (adapters {names})", file=fn["file"], line=c.get("line"))
+    ctx.check(bool(part) and any(_chain(c["recv"])[0] == L for c in part), R, fn["fn"], "partition-found", "partition over the incoming entries",
+              "no partition of the incoming entries into conflicts / entries to merge was found (shape not understood)", file=fn["file"], line=fn["line"])
+    for callee, what in (("merge_state", "merged"), ("resolve_add_conflict", "resolved as a uuid conflict")):
+        sites = [n for n in walk(body, into_closures=False) if n.get("s") == "let" and "init" in n and calls_in(n["init"], callee)]
+        if not ctx.check(len(sites) >= 1, R, fn["fn"], f"site:{callee}", f"{callee} site found", f"no statement calling {callee} found (shape not understood)",
+                         file=fn["file"], line=fn["line"]):
+            continue
+        for st in sites:
+            r, names = _chain(st["init"])
+            lossy = [m for m in names if m in LOSSY]
+            ctx.check(r is not None and not lossy, R, fn["fn"], f"all-{callee}", f"every selected entry is {what}",
+                      f"not every entry selected by the partition is {what} (adapters {names})", file=fn["file"], line=st["init"].get("line"))
